@@ -127,7 +127,12 @@ impl<'a> G<'a> {
                 10 if f.links && !self.in_a => {
                     self.in_a = true; let kids = self.inlines(depth + 1); self.in_a = false;
                     // (odd targets: empty, blank, or with wide characters - never letters, see C03's assumption)
-                    let href = if f.odd_href && self.r.chance(1, 6) { (*self.r.pick(&["", " ", "#", "//0.0/\u{3000}\u{3001}\u{3002}/\u{ff01}\u{ff02}\u{ff03}\u{ff04}\u{ff05}\u{ff06}\u{ff07}\u{ff08}\u{ff09}\u{ff0a}", "//\u{ff10}\u{ff11}.\u{ff12}/\u{ff13}\u{ff14}\u{ff15}\u{ff16}\u{ff17}\u{ff18}\u{ff19}/1234567890123"])).to_string() }
+                    let href = if f.odd_href && self.r.chance(1, 10) {
+                                   // a line feed inside the target: it counts no column as it stands, one as the blank it becomes in the footnote
+                                   let n = self.r.range(3, 22) as usize; let mut s: String = "//0.0/".into();
+                                   for k in 0..n { s.push(if k > 0 && self.r.chance(1, 6) { '\n' } else { (b'a' + (k % 26) as u8) as char }); }
+                                   s }
+                               else if f.odd_href && self.r.chance(1, 6) { (*self.r.pick(&["", " ", "#", "//0.0/\u{3000}\u{3001}\u{3002}/\u{ff01}\u{ff02}\u{ff03}\u{ff04}\u{ff05}\u{ff06}\u{ff07}\u{ff08}\u{ff09}\u{ff0a}", "//\u{ff10}\u{ff11}.\u{ff12}/\u{ff13}\u{ff14}\u{ff15}\u{ff16}\u{ff17}\u{ff18}\u{ff19}/1234567890123"])).to_string() }
                                else { format!("//0.0/{}", self.r.below(50)) };
                     let mut n = if self.r.chance(1, 10) { N::el("a", kids) } else { N::ela("a", vec![("href", href)], kids) };
                     self.maybe_id(&mut n, true);
